@@ -60,6 +60,7 @@ type stepStats struct {
 	hits, misses, bypass, evictions, guardMisses, resets, replaces, execs, execStale, errResults, planResults int
 	steps                                                                                                  int
 	collReqs, collPairs                                                                                    int // normalised requests with / pairs of SynthArgs that print alike under %v but differ
+	otherData                                                                                              int // executions of a plan whose previous execution had other variables ∪ SynthArgs (other data, other runtime types)
 }
 
 type modelStep struct {
@@ -192,6 +193,17 @@ func runHistory(h *historyT, drv *hx.Driver, st *stepStats, fpCheck bool) (*divT
 		pool[i] = unhex(p)
 	}
 	plans := map[int]*planned{} // by op ID
+	lastArgs := map[*graphql.Plan]string{}
+	sawArgs := func(p *graphql.Plan, args map[string]interface{}) {
+		if p == nil {
+			return
+		}
+		a := normMap(args)
+		if prev, ok := lastArgs[p]; ok && prev != a {
+			st.otherData++
+		}
+		lastArgs[p] = a
+	}
 	steps := make([]goStep, len(h.Ops))
 	mops := make([]interface{}, len(h.Ops))
 	var prevKeys []string
@@ -229,6 +241,7 @@ func runHistory(h *historyT, drv *hx.Driver, st *stepStats, fpCheck bool) (*divT
 				if o.ID%3 == 0 {
 					ps = schemas[o.ID%2]
 				}
+				sawArgs(pl.pr.Plan, mergeArgs(vars, pl.pr.SynthArgs))
 				got = resultJSON(graphql.ExecutePlan(pl.pr.Plan, graphql.ExecuteParams{Schema: *ps, Args: mergeArgs(vars, pl.pr.SynthArgs)}))
 				want = resultJSON(graphql.Do(graphql.Params{Schema: *pl.schema, RequestString: pl.q, OperationName: pl.op, VariableValues: vars}))
 			}); p != nil {
@@ -352,6 +365,7 @@ func runHistory(h *historyT, drv *hx.Driver, st *stepStats, fpCheck bool) (*divT
 				if p := safeDo(func() {
 					want = resultJSON(graphql.Do(graphql.Params{Schema: *schema, RequestString: q, OperationName: opn, VariableValues: vars}))
 					if pr.Plan != nil {
+						sawArgs(pr.Plan, mergeArgs(vars, pr.SynthArgs))
 						got = resultJSON(graphql.ExecutePlan(pr.Plan, graphql.ExecuteParams{Schema: *schema, Args: mergeArgs(vars, pr.SynthArgs)}))
 					} else {
 						got = g.errs
@@ -951,7 +965,7 @@ func main() {
 	detectKeyModes()
 	run.Res.Extra["key_mode"] = map[string]string{"normalised_document": keyMode, "key_shape": keyShape}
 	run.Tag("key:" + keyMode + "/" + keyShape)
-	run.Res.Rule = "histories of Get / ExecutePlan / Reset / schema replacement (two slots, same shape, new pointer per replacement) over a pool of 6-30 requests drawn as near-miss pairs from sixteen families (dedupeCollision: two or more different literals of one list / input-object / enum-list argument type in one operation whose coerced Go values have the same fmt %v text, next to equal literals and different spellings of one value — also served member by member in two fixed histories —, duplicate input-object field names inside extractable literals at any depth, one response key with literal arguments in the operation and in a fragment it spreads, second spread of a fragment already spread elsewhere present / absent / with a directive, definitions the selected operation does not reach, equal literals under every wrapper shape of one input type, list / input-object literals for resolvers that mutate their arguments, one literal, one alias, argument order/name, operation names, text imitating the key encodings incl. \\x00 and multi-byte, variables + dynamic directives, object/list/interface/union/fragment shapes, rejected requests, formerly normaliser-unsafe shapes D-06b…g), caps {1,2,3,5,default}, MaxQueryBytes {default,40,64} with over-size and at-limit twins, nil cache 1/25; modes raw 60% / Normalize=true 40% (norm-safe, norm-any = with adversarial operation names); non-trivial = the history has a hit and at least one of eviction, schema-guard miss, reset, bypass, re-execution of a stale plan; distinct by the whole history"
+	run.Res.Rule = "histories of Get / ExecutePlan / Reset / schema replacement (two slots, same shape, new pointer per replacement) over a pool of 6-30 requests drawn as near-miss pairs from seventeen families (abstractMerge: one plan executed against different data — node(id: $x) is a Person or an Item depending on the variable (or, normalised, on a literal), a fragment on the interface and inline fragments on its members select the same response key with different sub-selections, one fragment spread at two places one of which only one runtime type reaches; also served member by member with every variable assignment in turn in four fixed histories —, dedupeCollision: two or more different literals of one list / input-object / enum-list argument type in one operation whose coerced Go values have the same fmt %v text, next to equal literals and different spellings of one value — also served member by member in two fixed histories —, duplicate input-object field names inside extractable literals at any depth, one response key with literal arguments in the operation and in a fragment it spreads, second spread of a fragment already spread elsewhere present / absent / with a directive, definitions the selected operation does not reach, equal literals under every wrapper shape of one input type, list / input-object literals for resolvers that mutate their arguments, one literal, one alias, argument order/name, operation names, text imitating the key encodings incl. \\x00 and multi-byte, variables + dynamic directives, object/list/interface/union/fragment shapes, rejected requests, formerly normaliser-unsafe shapes D-06b…g), caps {1,2,3,5,default}, MaxQueryBytes {default,40,64} with over-size and at-limit twins, nil cache 1/25; modes raw 60% / Normalize=true 40% (norm-safe, norm-any = with adversarial operation names); non-trivial = the history has a hit and at least one of eviction, schema-guard miss, reset, bypass, re-execution of a stale plan; distinct by the whole history"
 	run.Res.Rule += " || interleaved Gets: a complete Get (and a third one inside it) nested between the lookup and the store of another Get through a custom scalar's ParseLiteral hook; all of Normalize on/off x caps {1,2,default} x nested Get on the same / the other schema pointer x same / other key x pre-populated entry (none, other schema same key, same schema other key) x third Get (none, A, B) x a sibling Get for the other request inside the outer one x which schema asks first afterwards; compared with the model run on the same lookup/store primitives (hit/miss, which Get's plan a hit returns, key list in MRU order + length + counters whenever no Get is in flight) and with graphql.Do on the request's own schema"
 	run.Res.Assumptions = []string{
 		"Normalize=true is compared with graphql.Do on every history and every pool (the shapes that exhibited D-06b…g are part of the pool since their repair); mode norm-any differs from norm-safe only by also drawing adversarial operation names",
@@ -972,7 +986,7 @@ func main() {
 		}
 		for tag, n := range map[string]int{"step:hit": st.hits, "step:miss": st.misses, "step:bypass-or-nolookup": st.bypass, "step:eviction": st.evictions,
 			"step:schema-guard-miss": st.guardMisses, "step:reset": st.resets, "step:replace": st.replaces, "step:exec": st.execs, "step:exec-of-stale-schema-plan": st.execStale,
-			"step:error-result": st.errResults, "step:plan-result": st.planResults,
+			"step:error-result": st.errResults, "step:plan-result": st.planResults, "step:plan-executed-with-other-variables-than-before": st.otherData,
 			"dedupeCollision:normalised-request-with-two-different-literals-of-equal-%v-text": st.collReqs, "dedupeCollision:pairs-of-such-literals": st.collPairs} {
 			run.Res.Histogram[tag] += n
 		}
@@ -1026,6 +1040,20 @@ func main() {
 		}
 		one(familyHistory("dedupeCollision", capN), false)
 		run.Tag("special:dedupeCollision-every-member")
+	}
+
+	// every member of the family abstractMerge with every variable assignment in turn (one plan meets Person, Item, Person …):
+	// raw and normalising caches, default capacity (second round hits) and capacity 2
+	for _, mode := range []string{"raw", "norm-safe"} {
+		for _, capN := range []int{0, 2} {
+			if run.TooManyViolations() {
+				break
+			}
+			h := familyHistory("abstractMerge", capN)
+			h.Mode = mode
+			one(h, false)
+			run.Tag("special:abstractMerge-every-member")
+		}
 	}
 
 	n := run.N(1500, 5000)
